@@ -197,6 +197,9 @@ def gen_loop(tier, seed):
 
 def suites(tier, seed):
     ss = [
+        Suite("open-with-bound-0", "bp", lambda: [Case("b0", ["run 0 1000 0 2 20 100 400 f"], {"keep_prefix": 0}), Case("b1", ["run 1 1000 0 1 20 100 400 f"], {"keep_prefix": 0})], monitor=lambda c, il, sl: (("open_channel never returns with mem_channel_bound = %s" % c.ops[0].split()[1], "c10-open-hang") if any(l.strip() == "open-channel hung" for l in il) else None),
+              nontrivial=lambda c, il: True, compare=False, timeout=120,
+              rule="end to end with the in-memory queue bound set to 0 (documented as 'treated as 1') and 1: open_channel returns - no sequence of opens hangs"),
         Suite("ids-end-to-end", "obey", lambda: __import__("props.c15", fromlist=["x"]).gen_obey(tier, seed + 10), monitor=__import__("props.c15", fromlist=["x"]).obey_monitor, nontrivial=lambda c, il: True, shards=4, timeout=300,
               rule="real connection + I/O thread over the mock transport: channel_max negotiated from both sides' wishes (incl. 0 = no limit, 1, 2, 3, 5), automatic opens until the table is full: every id 1..=channel_max is handed out, none above it, ExhaustedChannelIds exactly when all are open (stray CloseOks for unopened ids in between); exact diff against the Lean model (Tune + Slots)"),
         Suite("ids-in-the-loop", "machine", lambda: gen_loop(tier, seed), monitor=loop_monitor, nontrivial=lambda c, il: True, canon=__import__("machgen").canon_nondet, candidate_ok=__import__("machgen").candidate_ok, shards=4,
